@@ -268,7 +268,7 @@ def classify(case, o):
 # ---- C: other uses of a snapshot that holds user-controlled parts: never compared, membership, sub-snapshots in loops
 def gen_usage(rng, i):
     kind = ["never", "in", "getitem_loop", "never", "in_nested", "bound_nested", "bound_fstring", "getitem_star", "star_nested",
-            "in_star", "star_loop", "equal_other_spelling", "call_hidden_kw", "inner_field", "fstring_nofield", "never_factory", "cond_inner", "in_nonlist_unm", "leaf_fkey"][i % 19]
+            "in_star", "star_loop", "equal_other_spelling", "call_hidden_kw", "inner_field", "fstring_nofield", "never_factory", "cond_inner", "in_nonlist_unm", "leaf_fkey", "leaf_call_pos_unm"][i % 20]
     g = G(rng, agree=True)
     flags = tuple(rng.choice(proggen.flag_subsets()))
     if kind == "never":
@@ -414,6 +414,15 @@ def gen_usage(rng, i):
         tested = rng.choice(["5", "2", "X", "5, 2"])
         body = f"X = 1\nS = 'a'\n\n\ndef test_a():\n    for v in ({tested},):\n        R = v in snapshot({old})\n"
         g.snips.append("Is(X)" if "Is(X)" in old else "f'{S}'")
+        allowed = set()
+    elif kind == "leaf_call_pos_unm":
+        # a constructor call with POSITIONAL arguments holding Is() / an inner snapshot, handled as a whole (member of an `in` list, bound): it stays the user's
+        arg = rng.choice(["Is(X)", "snapshot(1)"])
+        left, op, right = rng.choice([("VER(1, 3)", "in", "[VER({a}, 0x3), 0+1]"), ("[VER(1, 3)]", "<=", "[VER({a}, 0x3)]"), ("[VER(1, 3)]", ">=", "[VER({a}, 0x3)]"),
+                                      ("VER(1, 3)", "in", "[VER({a}, minor=0x3)]"), ("VER(1, 3)", "in", "[[VER({a}, 0x3)], VER({a}, 0x3)]")])
+        body = ("from collections import namedtuple\nVER = namedtuple('VER', 'major minor')\nX = 1\n\n\ndef test_a():\n    R = "
+                + f"{left} {op} snapshot({right.format(a=arg)})\n")
+        g.snips.append(arg)
         allowed = set()
     elif kind == "leaf_fkey":
         # an f-string as KEY of a dict that is handled as a whole (member of an `in` / <= list): the key is the user's, the leaf is not rewritten
